@@ -1247,6 +1247,10 @@ impl<'ctx> ByteCompiler<'ctx> {
         &mut self,
         condition: Option<&Expression>,
     ) -> Option<HoistedOperand> {
+        #[cfg(boa_verif)]
+        if boa_ast::scope::verif::conservative(boa_ast::scope::verif::HOIST) {
+            return None;
+        }
         let condition = condition?;
         let Expression::Binary(binary) = condition else {
             return None;
@@ -1323,6 +1327,11 @@ impl<'ctx> ByteCompiler<'ctx> {
         hoisted: Option<&HoistedOperand>,
     ) -> Option<Label> {
         use crate::vm::opcode::BytecodeEmitter;
+
+        #[cfg(boa_verif)]
+        if boa_ast::scope::verif::conservative(boa_ast::scope::verif::FUSED) {
+            return None;
+        }
 
         let emit_fn: fn(&mut BytecodeEmitter, Address, RegisterOperand, RegisterOperand) = match op
         {
@@ -2270,11 +2279,17 @@ impl<'ctx> ByteCompiler<'ctx> {
                                 );
                                 // Cache non-local const bindings in a persistent register
                                 // so subsequent reads avoid GetName environment lookups.
-                                let cache_reg = self.register_allocator.alloc_persistent();
-                                self.bytecode
-                                    .emit_move(cache_reg.variable(), value.variable());
-                                self.const_binding_cache
-                                    .insert(binding.locator(), cache_reg.index());
+                                #[cfg(boa_verif)]
+                                let cache = !boa_ast::scope::verif::conservative(boa_ast::scope::verif::CONST_CACHE);
+                                #[cfg(not(boa_verif))]
+                                let cache = true;
+                                if cache {
+                                    let cache_reg = self.register_allocator.alloc_persistent();
+                                    self.bytecode
+                                        .emit_move(cache_reg.variable(), value.variable());
+                                    self.const_binding_cache
+                                        .insert(binding.locator(), cache_reg.index());
+                                }
                                 self.register_allocator.dealloc(value);
                             }
                         }
